@@ -659,9 +659,9 @@ type queryCase struct {
 	// ("bg") default-colour query
 	OnlyOne string `json:"terminal_answers_only,omitempty"`
 	Caps    uint32 `json:"caps_mask"`
-	Query  string `json:"query"`
-	Timing string `json:"timing"` // in-time | late | never
-	Keys   int    `json:"concurrent_keys"`
+	Query   string `json:"query"`
+	Timing  string `json:"timing"` // in-time | late | never
+	Keys    int    `json:"concurrent_keys"`
 	// Stray: colour reports of the queried kind (with another colour) that
 	// arrive before the query, when nobody is waiting for them
 	Stray int `json:"reports_nobody_asked_for_before_the_query,omitempty"`
